@@ -90,6 +90,11 @@ structure RH (s : State) (sc : Bool) (o : Op) : Prop where
     o.userTimeout = true ∨ timeoutDue o s.now = true
   ret : o.retBeforeStop = true → unrep s → s.subPc = 0 ∧ s.subRets = []
   win : s.stopPc = 5 → o.retBeforeStop = true → ¬ unrep s
+  retN : (s.subPc ≠ 0 ∨ s.subRets ≠ []) → o.ret = none
+  dlA : ∀ e, o.absExp = some e → (s.subPc = 2 ∨ s.parked = true) → s.opDeadline = some e
+  dlS : ∀ m, o.absExp = none → o.tmo = .ms m → (s.subPc = 2 ∨ s.parked = true) → s.opDeadline.isSome = true
+  dlU : ∀ m d, o.absExp = none → o.tmo = .ms m → s.opDeadline = some d → (s.subPc = 2 ∨ s.parked = true) →
+    (o.ret = none → d ≤ s.now + m) ∧ (o.ret ≠ none → d ≤ o.tret + m)
 
 /-- the scalar part of the relation; `k` = `nng_aio_abort` calls that have done their work and whose
     return the monitor is about to see -/
@@ -101,8 +106,8 @@ structure RB (k : Nat) (s : State) (g : G) (j : J) : Prop where
   rep : j.reports + pend s = s.reported + s.skips
   cb : j.openCb = s.inCb
   tmo : j.tmo = s.timeout
-  abs1 : j.absExp.isSome = g.absCfg
-  abs2 : s.useExpire = true → j.absExp = s.expire
+  abs1 : (s.useExpire = false ∨ s.pendFin.isSome = true ∨ (s.subPc = 1 ∧ isDirect s.subKind = true)) → j.absExp = none
+  abs2 : s.useExpire = true → s.pendFin = none → (s.subPc = 1 → isDirect s.subKind = false) → j.absExp = s.expire
   peek : j.reports = j.ops.length → ∀ r, j.lastCb = some r → s.result = r
   stopC : (s.stop = true ∨ s.stopPc ≠ 0 ∨ s.closes ≠ 0) → j.stopCalled = true
   stopR : j.stopReturned = true → s.stoppedAt.isSome = true
@@ -111,6 +116,7 @@ structure RB (k : Nat) (s : State) (g : G) (j : J) : Prop where
   ab3 : s.aborts.length + nonE s.calls + g.abE + k ≤ j.openAborts
   freed5 : s.freed = true → s.stopPc = 5
   fr : (s.stopPc ≠ 0 ∧ s.stopFree = true) → k = 0
+  useE : s.useExpire = true → s.expire.isSome = true
 
 /-- the relation while `nng_aio_free` has not returned -/
 structure R (k : Nat) (s : State) (g : G) (j : J) : Prop where
@@ -186,14 +192,14 @@ macro "r_open" hR:ident : tactic => `(tactic| (
   rcases ‹Inv2 _› with ⟨g1,g2,g3,g4,g5,g6,g7⟩
   rcases ‹Inv3 _› with ⟨k1,k2,k3,k4,k5,k6,k7,k8,k9⟩
   rcases ‹Inv4 _› with ⟨m1,m2,m3,m4,m4b,m4c,m5,m6,m7,m8,m9,m10,m11,m12,m13⟩
-  rcases $hR:ident with ⟨⟨b1,b2,b3,b4,b5,b6,b7,b8,b9,b10,b11,b12,b13,b14,b15,b16,b17⟩, hh, ht⟩
+  rcases $hR:ident with ⟨⟨b1,b2,b3,b4,b5,b6,b7,b8,b9,b10,b11,b12,b13,b14,b15,b16,b17,b18⟩, hh, ht⟩
   have c1 : ESTOPPED ≠ ETIMEDOUT := estopped_ne_etimedout
   have c2 : ESTOPPED ≠ ECANCELED := estopped_ne_ecanceled
   have c3 : ETIMEDOUT ≠ ECANCELED := etimedout_ne_ecanceled))
 
 set_option hygiene false in
 macro "rb_close" : tactic => `(tactic| (
-  constructor <;> (try dsimp only) <;> (try simp only [updNewest_length]) <;> grind [b2n, pend, nonE]))
+  constructor <;> (try dsimp only) <;> (try simp only [updNewest_length]) <;> grind [b2n, pend, nonE, isDirect]))
 
 set_option hygiene false in
 macro "rh_close" : tactic => `(tactic| (
@@ -205,7 +211,7 @@ macro "rh_try" : tactic => `(tactic| (
 
 set_option hygiene false in
 macro "rb_try" : tactic => `(tactic| (
-  constructor <;> (try dsimp only) <;> (try simp only [updNewest_length]) <;> (first | grind [b2n, pend, nonE] | skip)))
+  constructor <;> (try dsimp only) <;> (try simp only [updNewest_length]) <;> (first | grind [b2n, pend, nonE, isDirect] | skip)))
 
 set_option hygiene false in
 /-- the monitor's list of operations is untouched by the step: the head facts come from the old ones -/
@@ -214,7 +220,7 @@ macro "r_same" hR:ident : tactic => `(tactic| (
   refine ⟨?_, ?_, ht⟩
   · rb_close
   · intro o ho
-    rcases hh o ho with ⟨r1,r2,r3,r4,r5,r6,r7,r8,r9,r10,r11,r12,r13,r14,r15,r16,r17,r18⟩
+    rcases hh o ho with ⟨r1,r2,r3,r4,r5,r6,r7,r8,r9,r10,r11,r12,r13,r14,r15,r16,r17,r18,r19,r20,r21,r22⟩
     rh_close))
 
 /-- the monitor has an operation on record as soon as the model has started one -/
@@ -240,7 +246,7 @@ macro "r_upd" ho:ident : tactic => `(tactic| (
     rw [updNewest_head, $ho:ident] at ho'
     simp only [Option.map_some, Option.some.injEq] at ho'
     subst ho'
-    rcases hh o $ho:ident with ⟨r1,r2,r3,r4,r5,r6,r7,r8,r9,r10,r11,r12,r13,r14,r15,r16,r17,r18⟩
+    rcases hh o $ho:ident with ⟨r1,r2,r3,r4,r5,r6,r7,r8,r9,r10,r11,r12,r13,r14,r15,r16,r17,r18,r19,r20,r21,r22⟩
     constructor <;> (try dsimp only [fRet]) <;> grind [b2n, unrep, pend, Refusal, DLrel, timeoutDue, isDirect]
   · intro x hx; rw [updNewest_tail] at hx; exact ht x hx))
 
